@@ -63,15 +63,21 @@ def build(prop_files, thorough=False):
     lock = open(os.path.join(ROOT, 'build', 'lock'), 'w')
     fcntl.flock(lock, fcntl.LOCK_EX)
     try:
-        rc, out = sh('python3 tools/translate.py %s/ansi_string coq/Gen' % SRC)
-        info['translate'] = out.strip().split('\n')[-1] if out.strip() else ''
+        # tables: read from the imported package (tools/translate_rt.py); the AST reading of the source text
+        # (tools/translate.py) is the cross-check below - where it recognises the source it must agree entry by entry
+        rc, out = sh('PYTHONPATH=%s PYTHONDONTWRITEBYTECODE=1 /venv/bin/python tools/translate_rt.py coq/Gen' % SRC)
+        lines = [l for l in out.strip().split('\n') if l.startswith('TRANSLATE')]
+        info['translate'] = lines[-1] if lines else (out.strip().split('\n')[-1][:300] if out.strip() else '')
         info['translate_ok'] = (rc == 0)
         translate_failed = (rc != 0)
+        # four small functions: translated where the source shape is known, reference form + enumerated correspondence
+        # (harness/fncorr.py) where it is not
         rcf, outf = sh('python3 tools/translate_fns.py %s/ansi_string coq/Gen' % SRC)
         info['translate_fns'] = outf.strip().split('\n')[-1] if outf.strip() else ''
         translate_fns_failed = (rcf != 0)
-        # the translator itself is cross-checked against the imported module (exhaustive, tables are finite)
-        rct, outt = sh('PYTHONPATH=%s /venv/bin/python -m harness.tablecheck' % SRC)
+        m = re.search(r'untranslated=(.*)$', info['translate_fns'])
+        info['untranslated_fns'] = [] if not m or m.group(1).strip() == '-' else [x.strip() for x in m.group(1).split(' ; ')]
+        rct, outt = sh('PYTHONPATH=%s PYTHONDONTWRITEBYTECODE=1 /venv/bin/python -m harness.tablecheck' % SRC)
         info['tablecheck'] = [l for l in outt.strip().split('\n') if l.startswith('TABLECHECK')][:8]
         tablecheck_failed = (rct != 0) and not translate_failed
         if not os.path.exists(os.path.join(COQ, 'Makefile.coq')) or \
